@@ -34,6 +34,11 @@ chk("C14",
     TRUST + "Not decided: determinism of dependencies; cross-version stability of sort.Slice under SortBids' non-strict comparator (noted).",
     "custom dataflow lint over go/ssa natural loops (loop-carried phi classification, effect summaries, sort-dominance)", "DESIGN.md section 4 C14")
 
+chk("C15",
+    "Structural necessary conditions of the round trip: (GEN-COVER) every collection field of the keeper is written in genesis import's call tree and read in export's, or is a counter import re-derives; (GEN-PAIR) every GenesisState list is filled by an unfiltered walk over one collection with an unconditional append of the stored value, and import stores that list's elements into the same collection; (GEN-DUPKEY) for each list the fields Validate builds its duplicate key from equal the record fields that form the store key, derived from the keeper's own Set sites by provenance-term matching; (KV-AGREE) import files each record under the key built from the record's own fields (or sets its id to the key first). One known finding (MatchedBidsLen absent from genesis) is reported as KNOWN-FINDING.",
+    TRUST + "Not decided: per-object Validate acceptance of every reachable value; lock-step behavioural equivalence after re-import.",
+    "effect/coverage tables over the genesis call trees + provenance-term agreement between validator keys, store keys and records", "DESIGN.md section 4 C15")
+
 PENDING = {}  # property -> reason (kept current as checks are added)
 ALL = ["C%02d" % i for i in range(1, 21)]
 for p in ALL:
